@@ -1,6 +1,9 @@
 package main
 
-func init() { register("C03", runC03) }
+func init() {
+	register("C03", runC03)
+	rsExtra["C03"] = rsFineFamilyC03
+}
 
 func runC03(cfg *runCfg) error {
 	n := 350
